@@ -51,6 +51,19 @@ Qed.
 Example C02_example : ok_receives ex_env2 ex_chain2 [([], ex_receive 6); ([], ex_receive 6)] 0 6 = 1.
 Proof. vm_compute. reflexivity. Qed.
 
+(* Over a whole history: the (source domain, nonce) pairs of the receives that succeeded ([accepted e c h], in
+   order) are pairwise distinct - this is the "distinct accepted burn messages" over which C04 sums -, each was
+   free when the history began and each is used when it ends. *)
+Theorem C02_accepted_messages_are_pairwise_distinct : forall e h c, NoDup (accepted e c h).
+Proof. intros e h c. exact (proj1 (accepted_fresh_nodup e h c)). Qed.
+
+Theorem C02_accepted_pairs_were_free_and_end_up_used : forall e h c d n, In (d, n) (accepted e c h) ->
+  used c d n = false /\ used (run e c h) d n = true.
+Proof. intros e h c d n I. split; [exact (proj2 (accepted_fresh_nodup e h c) d n I)|exact (accepted_used e h c d n I)]. Qed.
+
+Example C02_accepted_example : accepted ex_env2 ex_chain2 [([], ex_receive 6); ([], ex_receive 6); ([], ex_receive 7)] = [(0, 6); (0, 7)]%N.
+Proof. vm_compute. reflexivity. Qed.
+
 Print Assumptions C02_at_most_once.
 Print Assumptions C02_used_stays_used.
 Print Assumptions C02_used_only_if.
@@ -58,3 +71,5 @@ Print Assumptions C02_successful_receive_consumes_its_pair.
 Print Assumptions C02_nonce_key_injective.
 Print Assumptions C02_decoded_pairs_in_range.
 Print Assumptions C02_query_reflects_used_set.
+Print Assumptions C02_accepted_messages_are_pairwise_distinct.
+Print Assumptions C02_accepted_pairs_were_free_and_end_up_used.
